@@ -635,7 +635,7 @@ class Interp:
         if k == "repeat":
             e = self.operand(st, depth, rv["o"], body, ln)
             n = rv["n"]
-            if 0 <= n <= 16:
+            if 0 <= n <= 256:
                 return Arr([e] * n)
             return ArrS(e, n if n >= 0 else D.top_of_int("usize"))
         return TOP
